@@ -40,8 +40,8 @@ REQUIRED = ['cmp_digest', 'cmp_midout', 'cmp_set_state', 'cmp_state_count', 'cmp
 
 # part -> (workers, args) per tier
 QUICK = [
+    ('hmacct', 32, dict(nexh=212, cases=24000, k=1)),
     ('hash',   16, dict(nexh=160, k=3)),
-    ('hmacct', 32, dict(nexh=212, cases=24000, k=2)),
     ('multi',   8, dict(nexh=300, cases=2560, k=0)),
     ('state',   2, dict(k=3)),
     ('inject',  2, dict(cases=21000)),
@@ -55,8 +55,8 @@ QUICK = [
     ('misc',    1, dict()),
 ]
 THOROUGH = [
-    ('hash',   48, dict(nexh=300, k=40)),
-    ('hmacct', 64, dict(nexh=212, cases=600000, k=10)),
+    ('hmacct', 80, dict(nexh=212, cases=600000, k=10)),
+    ('hash',   48, dict(nexh=400, k=40)),
     ('multi',  16, dict(nexh=200, cases=64000, k=1)),
     ('state',   4, dict(k=1)),
     ('inject',  4, dict(cases=700000)),
